@@ -98,6 +98,8 @@ pub enum Input {
         seed: u64,
         avail: u16,
     },
+    /// Verbatim bytes (fuzzer inputs, regression files).
+    Literal { hex: String },
 }
 
 fn put_u64(buf: &mut [u8], off: usize, v: u64) {
@@ -107,6 +109,7 @@ fn put_u64(buf: &mut [u8], off: usize, v: u64) {
 impl Input {
     pub fn bytes(&self) -> Vec<u8> {
         match self {
+            Input::Literal { hex } => (0..hex.len() / 2).filter_map(|i| u8::from_str_radix(&hex[2 * i..2 * i + 2], 16).ok()).collect(),
             Input::Raw { len, seed, magic } => {
                 let mut v = fill(*len as usize, *seed);
                 if *magic && v.len() >= 10 {
@@ -791,7 +794,10 @@ pub fn run(ctx: &Ctx, rep: &Report) {
 pub fn replay(sub: &str, case: &Value) -> Result<(), Fail> {
     match sub {
         s if s.starts_with("slices") => replay_case::<Case>(case, &check_slices),
-        s if s.starts_with("readers") => {
+        s if s.starts_with("readers") || s.starts_with("both") => {
+            if s.starts_with("both") {
+                replay_case::<Case>(case, &check_slices)?;
+            }
             // Run in a child so an abort is observed, not suffered.
             let c: Case = serde_json::from_value(case.clone())
                 .map_err(|e| Fail::new("replay-decode", e.to_string()))?;
@@ -813,4 +819,40 @@ pub fn replay(sub: &str, case: &Value) -> Result<(), Fail> {
         s if s.starts_with("remote") => super::c02_net::replay(s, case),
         _ => Err(Fail::new("replay-unknown-sub", sub.to_string())),
     }
+}
+
+/// In-process twin of the slice and reader checks for one input (the fuzz targets
+/// run both in the fuzzing process: an abort or a sanitizer report is the signal).
+fn check_both(c: &Case) -> CheckResult {
+    let info = check_slices(c)?;
+    check_readers(c)?;
+    Ok(info)
+}
+
+pub fn fuzz_targets() -> Vec<crate::fuzz::Target> {
+    use crate::fuzz::{from_bytes, from_strategy};
+    vec![
+        from_bytes(
+            "c02_bytes",
+            "C02",
+            "both-replay",
+            |data: &[u8]| {
+                // first byte picks the reader mode, the rest is the wire input verbatim
+                let (m, rest) = data.split_first()?;
+                let mode = match m % 4 {
+                    0 => ReaderMode::Cursor,
+                    1 => ReaderMode::Dribble(1 + m / 4 % 7),
+                    2 => ReaderMode::Dribble(48),
+                    _ => ReaderMode::FailAt((*m as u16 / 4) * 3),
+                };
+                Some(Case {
+                    input: Input::Literal { hex: rest.iter().map(|b| format!("{b:02x}")).collect() },
+                    mode,
+                })
+            },
+            check_both,
+        ),
+        from_strategy("c02_hdr", "C02", "both-replay", case_hdr, check_both),
+        from_strategy("c02_frames", "C02", "both-replay", case_g1g2, check_both),
+    ]
 }
